@@ -196,13 +196,43 @@ def lm(ctx):
                                 "a field is counted exactly when it is written (same flag predicates)"))
         # LM-5b value-test agreement: if a field is written only when its value passes a test (e.g. `!= default`),
         # its length contribution is subject to a value test too, and vice versa
+        def comparands(body_, ops_, f):
+            """For a test whose operands are ops_: if one side reads field f, the signature of the other side(s)
+            (constants, constant-like calls such as `T::default()`), else None."""
+            sides = [x for x in ops_ if x is not None]
+            hit = [x for x in sides if any(a[0] == "field" and (info["adt"], f) == (a[1], a[2]) for a in body_.atoms(x))]
+            if not hit:
+                return None
+            sig = set()
+            for x in sides:
+                if x in hit and len(sides) > 1:
+                    continue
+                v = body_.fold(x)
+                if v is not None:
+                    sig.add("const:%s" % v)
+                    continue
+                for a in body_.atoms(x):
+                    if a[0] == "call":
+                        sig.add("call:" + strip_generics(a[1]).split("::")[-1])
+                    elif a[0] in ("const", "uneval", "variant"):
+                        sig.add("%s:%s" % (a[0], a[-1]))
+            return frozenset(sig)
+
+        def tests_in(body_, blocks, f):
+            out_ = set()
+            for j in blocks:
+                c2 = Cond(body_, j)
+                o2 = [c2.a, c2.b] if c2.kind == "cmp" else (list(c2.args) if c2.kind == "call" and c2.callee in ("eq", "ne") else [])
+                sg = comparands(body_, o2, f) if o2 else None
+                if sg is not None:
+                    out_.add(sg)
+            return out_
+
         def value_tested_emission(f, e):
+            found = set()
             for (d, s_) in enc.control_dep_closure(e["bb"]):
+                found |= tests_in(enc, [d], f)
                 cnd = Cond(enc, d)
-                if cnd.kind == "cmp" and any((info["adt"], f) == (a[1], a[2]) for a in (enc.atoms(cnd.a) | enc.atoms(cnd.b)) if a[0] == "field"):
-                    return True
-                if cnd.kind == "call" and cnd.callee in ("eq",) and any((info["adt"], f) == (a[1], a[2]) for x in cnd.args for a in enc.atoms(x) if a[0] == "field"):
-                    return True
                 # the decision looks at the result of a helper that itself tests the field's value (e.g. remaining_len())
                 ops_ = [cnd.a, cnd.b] if cnd.kind == "cmp" else (getattr(cnd, "args", []) if cnd.kind == "call" else [])
                 for x in ops_:
@@ -211,27 +241,20 @@ def lm(ctx):
                     for a in enc.atoms(x):
                         if a[0] == "call" and a[1].startswith(info["adt"] + "::"):
                             hb = info["helpers"].get(a[1].split("::")[-1])
-                            if hb is None:
-                                continue
-                            for j in sorted(hb.reach):
-                                c2 = Cond(hb, j)
-                                o2 = [c2.a, c2.b] if c2.kind == "cmp" else (c2.args if c2.kind == "call" and c2.callee == "eq" else [])
-                                if any((info["adt"], f) == (y[1], y[2]) for z in o2 if z is not None for y in hb.atoms(z) if y[0] == "field"):
-                                    return True
-            return False
+                            if hb is not None:
+                                found |= tests_in(hb, sorted(hb.reach), f)
+            return found
 
         def value_tested_length(f):
+            found = set()
             for hname, hb in info["helpers"].items():
                 if not hname.endswith("_len"):
                     continue
                 own, _ = own_len_fields(ctx, info, hname)
                 if f not in own:
                     continue
+                found |= tests_in(hb, sorted(hb.reach), f)
                 for i in sorted(hb.reach):
-                    cnd = Cond(hb, i)
-                    ops_ = [cnd.a, cnd.b] if cnd.kind == "cmp" else (cnd.args if cnd.kind == "call" and cnd.callee == "eq" else [])
-                    if any((info["adt"], f) == (a[1], a[2]) for x in ops_ if x is not None for a in hb.atoms(x) if a[0] == "field"):
-                        return True
                     t = hb.term(i)
                     if t["k"] == "call" and len(t["ops"]) >= 2 and f in self_fields(hb, hb.atoms(t["ops"][0]), info["adt"]):
                         for a in hb.atoms(t["ops"][1]):
@@ -239,19 +262,34 @@ def lm(ctx):
                                 cb = ctx.world.body(a[1])
                                 for j in sorted(cb.reach):
                                     c2 = Cond(cb, j)
-                                    if c2.kind == "cmp" or (c2.kind == "call" and c2.callee == "eq"):
-                                        return True
-            return False
+                                    o2 = [c2.a, c2.b] if c2.kind == "cmp" else (list(c2.args) if c2.kind == "call" and c2.callee in ("eq", "ne") else [])
+                                    if o2:
+                                        sg = set()
+                                        for x in o2:
+                                            v = cb.fold(x)
+                                            if v is not None:
+                                                sg.add("const:%s" % v)
+                                                continue
+                                            for a2 in cb.atoms(x):
+                                                if a2[0] == "call":
+                                                    sg.add("call:" + strip_generics(a2[1]).split("::")[-1])
+                                                elif a2[0] in ("const", "uneval", "variant"):
+                                                    sg.add("%s:%s" % (a2[0], a2[-1]))
+                                        found.add(frozenset(sg))
+            return found
         for f, es in sorted(emitted_fields.items()):
             direct = [e for e in es if e["item"][0] == "field"]
             if not direct or f not in rem_fields:
                 continue
-            ve = any(value_tested_emission(f, e) for e in direct)
+            ve = set()
+            for e in direct:
+                ve |= value_tested_emission(f, e)
             vl = value_tested_length(f)
             if ve or vl:
+                fmt = lambda S: sorted(sorted(x) for x in S) or "whatever its value"
                 out.append(Inst("LM", "%s:LM5b:%s" % (name, f), ve == vl, enc.site(direct[0]["bb"]),
-                                "field %s: written %s, counted %s" % (f, "only if its value passes a test" if ve else "whatever its value", "only if its value passes a test" if vl else "whatever its value"),
-                                "the condition for writing a field and for counting it is the same"))
+                                "field %s: written under value tests against %s, counted under value tests against %s" % (f, fmt(ve), fmt(vl)),
+                                "the condition for writing a field and for counting it is the same (same comparands)"))
         # LM-6
         meas = measured_types(ctx, info)
         emit_t = {}
